@@ -397,9 +397,14 @@ fn get_power_level_for_sender<E: Event>(
 
     for aid in event.as_ref().map(|pdu| pdu.auth_events()).into_iter().flatten() {
         if let Some(aev) = fetch_event(aid.borrow()) {
-            if is_type_and_key(&aev, &TimelineEventType::RoomPowerLevels, "") {
+            // Only the first event of each type is used, so that the result does not depend on where
+            // the search ends.
+            if room_power_levels_event.is_none()
+                && is_type_and_key(&aev, &TimelineEventType::RoomPowerLevels, "")
+            {
                 room_power_levels_event = Some(RoomPowerLevelsEvent::new(aev));
             } else if creator_lock.get().is_none()
+                && room_create_event.is_none()
                 && is_type_and_key(&aev, &TimelineEventType::RoomCreate, "")
             {
                 room_create_event = Some(RoomCreateEvent::new(aev));
